@@ -71,6 +71,14 @@ def run(ctx):
             ok = nonzero_int(v)
             k = ("failure-status", show(v))
             text = "failure paths return the non-zero integer %s" % show(v) if ok else "a failure path returns %s, which is not a non-zero integer constant" % show(v)
+            # ... and only when the library rejected: the verifier for the declared type was called
+            # with these two files and raised (a handler that is stricter than the library - extra
+            # validation of its own - turns acceptable files away)
+            rejected = [ev for ev in flat(p) if ev[0] == "call" and ev[2] in ("repo:authentication.verify_root", "repo:authentication.verify_delegation") and ev[5][0] == "raise"]
+            if ok and not rejected:
+                ok = False
+                k = ("failure-without-library-rejection", show(v))
+                text = "a path returns the failure status %s although neither verify_root nor verify_delegation rejected the files: the command is stricter than the library" % show(v)
         else:
             root_ok = [ev for ev in flat(p) if ev[0] == "call" and ev[2] == "repo:authentication.verify_root" and ev[5][0] == "ok" and tuple(eng.expand(a) for a in ev[3][:2]) == (Tm, Um)]
             del_ok = [ev for ev in flat(p) if ev[0] == "call" and ev[2] == "repo:authentication.verify_delegation" and ev[5][0] == "ok" and len(ev[3]) >= 3 and eng.expand(ev[3][0]) == uty and eng.expand(ev[3][1]) == Um and eng.expand(ev[3][2]) == Tm]
